@@ -1,7 +1,7 @@
 (* C14 — non-vacuity: the hypotheses of each theorem are met by concrete, non-trivial data. *)
 From GL Require Import Common.Bytes Pm.Class Pm.PmTypes Pm.RefMatch Pm.GoParse Pm.GoCompile Pm.GoVM
      Pm.Find Pm.Gsub Pm.Flat Pm.ClassFacts Pm.FindFacts Pm.GsubFacts Pm.ParseFacts Pm.CompileFacts
-     Pm.VMFacts.
+     Pm.VMFacts Pm.RefFacts Pm.SetFacts Pm.PmRefine Pm.PrintFacts.
 From Coq Require Import Lia.
 
 Example class_agree_ex : go_single_matches 97 120 = true /\ ref_match_class 120 97 = true
@@ -41,3 +41,37 @@ Example vm_refines_flat_ex :
   goVM src (goCompile p) (vm_fuel src (goCompile p)) 0 1 <> VFuel /\
   fm src false (flatten_seq (patterns p)) 1 [] [] = FMatch 6 [(1, 2)].
 Proof. vm_compute. repeat split; congruence. Qed.
+
+(* set_agree: the set [^a-c%d-] satisfies the hypothesis and is not trivial *)
+Example set_agree_ex :
+  set_ok true [SRange 97 99; SClass 100; SChar 45] /\
+  set_text true [SRange 97 99; SClass 100; SChar 45] = [91;94;97;45;99;37;100;45;93] /\
+  set_sem true [SRange 97 99; SClass 100; SChar 45] 98 = false /\
+  set_sem true [SRange 97 99; SClass 100; SChar 45] 120 = true.
+Proof. split; [apply set_okb_ok; reflexivity|repeat split]. Qed.
+
+(* vm_refines_ref / vm_refines_ref_checked: the pattern ^(%a+)[%d_]-%1$ is printable, its text is
+   what the printer says, the parser returns this tree for it, and the reference matches a subject *)
+Definition ex_pat : seqpat :=
+  mkSeq true true [PCap [PRepeat 43 (CSingle 97)];
+                   PRepeat 45 (CSet false [CSingle 100; CChar 95]); PNumber 1].
+Example vm_refines_ref_ex :
+  seq_okb ex_pat = true /\
+  print_seq ex_pat = Some [94;40;37;97;43;41;91;37;100;95;93;45;37;49;36] /\
+  goParse [94;40;37;97;43;41;91;37;100;95;93;45;37;49;36] = ParseOk ex_pat /\
+  ref_match [94;40;37;97;43;41;91;37;100;95;93;45;37;49;36] [97;98;49;95;97;98] 0 1 = RMatch 6 [(0, 2)] /\
+  goVM [97;98;49;95;97;98] (goCompile ex_pat) (vm_fuel [97;98;49;95;97;98] (goCompile ex_pat)) 0 0 <> VFuel.
+Proof. vm_compute. repeat split; congruence. Qed.
+
+(* goparse_roundtrip_small: the family is large and mostly printable *)
+Example roundtrip_ex : len rt_family = 8492 /\ rt_printable = 8076.
+Proof. vm_compute. split; reflexivity. Qed.
+
+(* ref_refines_flat: hypotheses for a concrete item list *)
+Example ref_flat_ex :
+  exists text, prints (tail_text false) [FOpen; FRepeat 42 (CChar 97); FClose; FNumber 1] text /\
+               text = [40;97;42;41;37;49].
+Proof.
+  destruct (items_okb_prints (tail_text false) [FOpen; FRepeat 42 (CChar 97); FClose; FNumber 1] eq_refl)
+    as (t & Ht & Hp). exists t. split; [exact Hp|]. cbn in Ht. inversion Ht. reflexivity.
+Qed.
